@@ -106,7 +106,7 @@ static void transition_case(int nl, int nn, int wsall, int selfloop)
 /* one entry per shape: a second script in the same run merges with the first one's final state and the cursor's walk is no
    longer concrete */
 #define TCASE(NL, NN, WS, SL) void h_c04_reader_transition_##NL##NN##WS##SL(void) { transition_case(NL, NN, WS, SL); REACH; }
-TCASE(0, 0, 0, 0) TCASE(0, 0, 1, 1) TCASE(0, 1, 1, 0) TCASE(1, 0, 0, 1) TCASE(1, 0, 1, 0) TCASE(1, 1, 0, 0) TCASE(2, 0, 0, 0) TCASE(2, 0, 1, 1) TCASE(2, 1, 1, 0)
+TCASE(0, 0, 0, 0) TCASE(0, 0, 0, 1) TCASE(0, 0, 1, 0) TCASE(0, 0, 1, 1) TCASE(0, 1, 0, 0) TCASE(0, 1, 0, 1) TCASE(0, 1, 1, 0) TCASE(0, 1, 1, 1) TCASE(1, 0, 0, 0) TCASE(1, 0, 0, 1) TCASE(1, 0, 1, 0) TCASE(1, 0, 1, 1) TCASE(1, 1, 0, 0) TCASE(1, 1, 0, 1) TCASE(1, 1, 1, 0) TCASE(1, 1, 1, 1) TCASE(2, 0, 0, 0) TCASE(2, 0, 0, 1) TCASE(2, 0, 1, 0) TCASE(2, 0, 1, 1) TCASE(2, 1, 0, 0) TCASE(2, 1, 0, 1) TCASE(2, 1, 1, 0) TCASE(2, 1, 1, 1)
 /* templ(): name, parameters, proc_begin, declarations, every location, every branchpoint, init, every transition, proc_end - each
    element handed to its reader exactly once, in document order (the element readers are used through their contracts) */
 void wx_start_template(int n);
@@ -227,7 +227,7 @@ static void location_case(int has_name, int nl, int urg, int com, int wsall)
     if (!has_name && nl == 0) __CPROVER_assert(0, "reach:anonymous");
 }
 #define LCASE(HN, NL, U, C, WS) void h_c04_reader_location_##HN##NL##U##C##WS(void) { location_case(HN, NL, U, C, WS); REACH; }
-LCASE(0, 0, 0, 0, 1) LCASE(0, 1, 1, 0, 0) LCASE(0, 2, 0, 1, 1) LCASE(1, 0, 1, 1, 0) LCASE(1, 1, 0, 0, 1) LCASE(1, 2, 1, 0, 0) LCASE(1, 2, 0, 1, 1) LCASE(0, 2, 1, 1, 0) LCASE(1, 1, 1, 1, 1)
+LCASE(0, 0, 0, 0, 0) LCASE(0, 0, 0, 0, 1) LCASE(0, 0, 0, 1, 0) LCASE(0, 0, 0, 1, 1) LCASE(0, 0, 1, 0, 0) LCASE(0, 0, 1, 0, 1) LCASE(0, 0, 1, 1, 0) LCASE(0, 0, 1, 1, 1) LCASE(0, 1, 0, 0, 0) LCASE(0, 1, 0, 0, 1) LCASE(0, 1, 0, 1, 0) LCASE(0, 1, 0, 1, 1) LCASE(0, 1, 1, 0, 0) LCASE(0, 1, 1, 0, 1) LCASE(0, 1, 1, 1, 0) LCASE(0, 1, 1, 1, 1) LCASE(0, 2, 0, 0, 0) LCASE(0, 2, 0, 0, 1) LCASE(0, 2, 0, 1, 0) LCASE(0, 2, 0, 1, 1) LCASE(0, 2, 1, 0, 0) LCASE(0, 2, 1, 0, 1) LCASE(0, 2, 1, 1, 0) LCASE(0, 2, 1, 1, 1) LCASE(1, 0, 0, 0, 0) LCASE(1, 0, 0, 0, 1) LCASE(1, 0, 0, 1, 0) LCASE(1, 0, 0, 1, 1) LCASE(1, 0, 1, 0, 0) LCASE(1, 0, 1, 0, 1) LCASE(1, 0, 1, 1, 0) LCASE(1, 0, 1, 1, 1) LCASE(1, 1, 0, 0, 0) LCASE(1, 1, 0, 0, 1) LCASE(1, 1, 0, 1, 0) LCASE(1, 1, 0, 1, 1) LCASE(1, 1, 1, 0, 0) LCASE(1, 1, 1, 0, 1) LCASE(1, 1, 1, 1, 0) LCASE(1, 1, 1, 1, 1) LCASE(1, 2, 0, 0, 0) LCASE(1, 2, 0, 0, 1) LCASE(1, 2, 0, 1, 0) LCASE(1, 2, 0, 1, 1) LCASE(1, 2, 1, 0, 0) LCASE(1, 2, 1, 0, 1) LCASE(1, 2, 1, 1, 0) LCASE(1, 2, 1, 1, 1)
 void h_c04_reader_branchpoint(void)
 {
     int id = 41, dup;
